@@ -83,17 +83,33 @@ pub(super) fn generate_method_impl(
         };
     };
 
-    let out_params_extract = match &reply_type {
+    // `reply_params_type` is the type the `parameters` of the reply are deserialized as.
+    let (reply_params_type, no_output_def, out_params_extract): (Type, _, _) = match &reply_type {
         Type::Tuple(tuple) if tuple.elems.is_empty() => {
-            // Unit type ()
-            quote!(Ok(Ok(())))
+            // Unit type (). Services commonly send `"parameters": {}` for methods without output
+            // parameters, which `()` doesn't deserialize from (only from `null`), so use a struct
+            // without fields.
+            (
+                syn::parse_quote!(NoOutputParameters),
+                quote! {
+                    #[derive(::serde::Deserialize, ::core::fmt::Debug)]
+                    struct NoOutputParameters {}
+                },
+                quote!(Ok(Ok(()))),
+            )
         }
-        _ => {
+        _ => (
+            reply_type.clone(),
+            quote!(),
             quote!(match reply.into_parameters() {
                 Some(params) => Ok(Ok(params)),
                 None => Err(#crate_path::Error::MissingParameters),
-            })
-        }
+            }),
+        ),
+    };
+    let method_call_setup = quote! {
+        #method_call_setup
+        #no_output_def
     };
 
     // Generate return type and implementation based on method attributes
@@ -103,6 +119,7 @@ pub(super) fn generate_method_impl(
         generate_streaming_method(
             method_call_setup,
             &reply_type,
+            &reply_params_type,
             &error_type,
             out_params_extract,
             crate_path,
@@ -111,6 +128,7 @@ pub(super) fn generate_method_impl(
         generate_regular_method(
             method_call_setup,
             &reply_type,
+            &reply_params_type,
             &error_type,
             out_params_extract,
             crate_path,
@@ -276,6 +294,7 @@ fn generate_oneway_method(
 fn generate_streaming_method(
     method_call_setup: TokenStream,
     reply_type: &Type,
+    reply_params_type: &Type,
     error_type: &Type,
     out_params_extract: TokenStream,
     crate_path: &TokenStream,
@@ -295,7 +314,7 @@ fn generate_streaming_method(
 
         let stream = #crate_path::connection::chain::ReplyStream::new(
             self.read_mut(),
-            |conn| conn.receive_reply::<#reply_type, #error_type>(),
+            |conn| conn.receive_reply::<#reply_params_type, #error_type>(),
             1,
         );
 
@@ -314,6 +333,7 @@ fn generate_streaming_method(
 fn generate_regular_method(
     method_call_setup: TokenStream,
     reply_type: &Type,
+    reply_params_type: &Type,
     error_type: &Type,
     out_params_extract: TokenStream,
     crate_path: &TokenStream,
@@ -325,7 +345,7 @@ fn generate_regular_method(
         #method_call_setup
 
         let call = #crate_path::Call::new(method_call);
-        match self.call_method::<_, #reply_type, #error_type>(&call).await? {
+        match self.call_method::<_, #reply_params_type, #error_type>(&call).await? {
             Ok(reply) => #out_params_extract,
             Err(error) => Ok(Err(error)),
         }
